@@ -101,6 +101,11 @@ class Ctx:
                        path=''.join('T' if d else 'F' for d in self.taken), meta=meta)
         )
 
+    def cut(self, name, f, line=None):
+        """Intermediate assertion (lemma at a program point): proved once under the current facts, then assumed."""
+        self.oblige(name, f, kind='cut', line=line)
+        self.assume(f)
+
     # -- branching ----------------------------------------------------------------------------
     def feasible(self, extra=None):
         s = z3.Solver()
@@ -219,6 +224,13 @@ def discharge(ob, timeout_ms=None, want_model=True, second_solver=False):
     """Discharge one obligation: z3 API first, CLI solvers (cvc5, z3 4.8) on unknown."""
     t0 = time.time()
     timeout_ms = timeout_ms or Z3_TIMEOUT_MS
+    tried_cvc5 = False
+    if want_model and _nonlinear_goal(ob.goal):
+        # nonlinear real/integer goals: cvc5 decides these in about a second where z3 tends to run into its time limit
+        rr = run_cli(['/usr/bin/cvc5', '--tlimit=5000'], _smt2(ob.hyps, ob.goal), 8)
+        tried_cvc5 = True
+        if rr == 'unsat':
+            return Verdict(ob.name, 'discharged', time.time() - t0, 'cvc5-1.0.3')
     s = z3.Solver()
     s.set('timeout', timeout_ms)
     s.set('random_seed', 0)
@@ -231,7 +243,7 @@ def discharge(ob, timeout_ms=None, want_model=True, second_solver=False):
     if r == z3.unknown:
         reason = s.reason_unknown()
         smt2 = _smt2(ob.hyps, ob.goal)
-        clis = [(['/usr/bin/cvc5', '--tlimit=%d' % timeout_ms], 'cvc5-1.0.3')]
+        clis = [] if tried_cvc5 else [(['/usr/bin/cvc5', '--tlimit=%d' % timeout_ms], 'cvc5-1.0.3')]
         if second_solver:
             clis.append((['/usr/bin/z3', '-T:%d' % max(1, timeout_ms // 1000)], 'z3-4.8.12'))
         for cmd, label in clis:
@@ -255,6 +267,30 @@ def discharge(ob, timeout_ms=None, want_model=True, second_solver=False):
         return v
     model = s.model() if want_model else None
     return Verdict(ob.name, 'failed', time.time() - t0, backend, model=model)
+
+
+def _nonlinear_goal(e, _depth=0):
+    """Does the goal multiply / divide two non-constant arithmetic terms?"""
+    todo = [e]
+    seen = set()
+    n = 0
+    while todo and n < 5000:
+        x = todo.pop()
+        n += 1
+        if x.get_id() in seen:
+            continue
+        seen.add(x.get_id())
+        if z3.is_quantifier(x):
+            todo.append(x.body())
+            continue
+        if z3.is_app(x):
+            k = x.decl().kind()
+            if k in (z3.Z3_OP_MUL, z3.Z3_OP_DIV, z3.Z3_OP_IDIV):
+                nonconst = [c for c in x.children() if not (z3.is_int_value(c) or z3.is_rational_value(c))]
+                if len(nonconst) >= 2 or (k != z3.Z3_OP_MUL and not (z3.is_int_value(x.arg(1)) or z3.is_rational_value(x.arg(1)))):
+                    return True
+            todo.extend(x.children())
+    return False
 
 
 def check_sat(hyps, timeout_ms=5000):
